@@ -127,6 +127,12 @@ def linesInFuncOK (f : File) : Bool :=
   | none => false
   | some fs => (fileBlks f).all (fun b => !(b.lo < b.hi) || b.lines.all (fun l => searchScopes fs l != 0))
 
+/-- the first boundary of every multi-line branch block lies strictly inside a function scope -/
+def boundariesInFuncOK (f : File) : Bool :=
+  match functionScopes f with
+  | none => false
+  | some fs => (fileBlks f).all (fun b => !(b.lo < b.hi) || b.header.isEmpty || searchScopes fs b.firstBoundary != 0)
+
 def wfFile (f : File) : Bool :=
   f.decls.all shapeD && (fileBlks f).all (fun b => blkOK f b && forcedOK b) && oneLinersOK f
 
@@ -140,7 +146,8 @@ def wfReasons (f : File) : List String :=
   (if (fileBlks f).all forcedOK then [] else ["forced"]) ++
   (if oneLinersOK f then [] else ["one-liners"]) ++
   (if scopesOK f then [] else ["scopes"]) ++
-  (if linesInFuncOK f then [] else ["lines-in-func"])
+  (if linesInFuncOK f then [] else ["lines-in-func"]) ++
+  (if boundariesInFuncOK f then [] else ["boundaries-in-func"])
 
 /-- the statement of C01/C02 about one position: a statement boundary of a block of the file -/
 def legalLine (f : File) (m : Nat) : Bool :=
